@@ -35,6 +35,8 @@ structure RCfg where
   rangeStop : Nat := 0
   noLibcall : Bool := false    -- --no-libcall
   noMerge : Bool := false      -- replay --no-merge
+  pltFixed : Bool := false     -- true: replay and script filter a --no-libcall PLT record like the other
+                               -- commands do and only hide it (repair of finding F-C07-NOLIBCALL)
   trig : Nat → Trigger := fun _ => {}
   hide : Nat → Bool := fun _ => false   -- TRIGGER_FL_HIDE (-H, hide action)
   plt : Nat → Bool := fun _ => false    -- sym->type == ST_PLT_FUNC
@@ -256,10 +258,16 @@ def stepA (c : RCfg) (s0 : FS) (r : Rec) : FS × List Rec :=
   else if r.type = 1 then exitStep c s r (isPlt c r)
   else (s, [])
 
-/-- script: with --no-libcall a PLT record is dropped before fstack_entry/fstack_exit -/
+/-- a hidden --no-libcall PLT record after the repair (`pltFixed`): fstack_entry / fstack_exit
+    run, nothing is shown and the display depth is left alone -/
+def stepHidden (c : RCfg) (s : FS) (r : Rec) : FS :=
+  if r.type = 0 then (fsEntry c s r.addr).1 else if r.type = 1 then fsExit c s else s
+
+/-- script: with --no-libcall a PLT record is dropped before fstack_entry/fstack_exit
+    (`pltFixed`: it is filtered like any other record and only not passed to the script) -/
 def stepC (c : RCfg) (s0 : FS) (r : Rec) : FS × List Rec :=
   let s := account s0 r
-  if isPlt c r then (s, []) else
+  if isPlt c r then (if c.pltFixed then stepHidden c s r else s, []) else
   if r.type = 0 then
     let p := fsEntry c s r.addr
     if p.2 then (updEntry p.1, [shown r p.1.dispDepth]) else (p.1, [])
@@ -291,7 +299,7 @@ structure RS where
 /-- the main-loop part of print_graph_rstack for one record -/
 def stepBmain (c : RCfg) (s0 : FS) (r : Rec) : RS × List Rec :=
   let s := account s0 r
-  if isPlt c r then ({ fs := s }, []) else
+  if isPlt c r then ({ fs := if c.pltFixed then stepHidden c s r else s }, []) else
   if r.type = 0 then
     let p := fsEntry c s r.addr
     if !p.2 then ({ fs := p.1 }, []) else
